@@ -118,6 +118,12 @@ def validate():
                 if [tuple(x) if isinstance(x, (list, tuple)) else x for x in (act[k] if isinstance(act[k], list) else [act[k]])] != \
                    [tuple(x) if isinstance(x, (list, tuple)) else x for x in (exp[k] if isinstance(exp[k], list) else [exp[k]])]:
                     mism.append(f"{name}: {k}: expansion {act[k]} / declaration {exp[k]}")
+            sn = name.upper() + "_METADATA"
+            if ("AdtDeserializer::new_v0(&" + sn) not in de.replace("\n", " ").replace("  ", " ") and \
+               not re.search(r"AdtDeserializer::new_v0\(&\s*" + re.escape(sn), de):
+                mism.append(f"{name}: the stored-version-0 branch does not read with the type's own metadata {sn}")
+            if not re.search(r"AdtDeserializer::new\(&\s*" + re.escape(sn), de):
+                mism.append(f"{name}: the evolved branch does not read with the type's own metadata {sn}")
             if act["reads_second_branch"] != act["reads"]:
                 mism.append(f"{name}: the stored-version-0 branch and the evolved branch read different fields: "
                             f"{act['reads']} / {act['reads_second_branch']}")
@@ -160,6 +166,12 @@ def validate():
             vname = mt.group(1) if tr and mt else (mv.group(1) if mv else None)
             body = ch.split("deserializer.read_constructor(")[0]
             rd = READ.findall(body)
+            if not tr and vname:
+                sn = f"{name.upper()}_{vname.upper()}_METADATA"
+                for ctor in ("new_v0", "new"):
+                    if not re.search(r"AdtDeserializer::%s\(&\s*%s\b" % (ctor, re.escape(sn)), body):
+                        mism.append(f"{name}::{vname}: the {'stored-version-0' if ctor == 'new_v0' else 'evolved'} branch of the "
+                                    f"constructor's reader does not use the constructor's own metadata {sn}")
             seq.append((int(mi.group(1)) if mi else None, vname, tr, [tuple(r) for r in rd[:len(rd) // 2]]))
         want = []
         for cidx, j in enumerate(order):
